@@ -62,6 +62,7 @@ def main():
                     bad += 1
                     ob = res.obligations[int(name.split(":")[0])]
                     print("   %-7s %s  [%s] path=%s clause=%s" % (r[1].upper(), name, r[2], ob.meta.get("path"), ob.meta.get("clause")))
+                    print("           tried:", [(a, b, round(c, 1)) for a, b, c in r[5]])
                     if verbose and r[4]:
                         for k, v in sorted(r[4].items()):
                             print("        ", k, "=", v[:200])
